@@ -48,6 +48,8 @@ pub enum Op {
     ImportAfter { rank: usize, topic: String, ctx: Ctx, ttl: String },
     /// re-import the stored frame unchanged
     ImportDup { rank: usize },
+    /// import a new frame whose id lies an hour ahead of the local clock (and of every stored id)
+    ImportFuture { topic: String, ctx: Ctx, ttl: String },
     /// import a registration frame (`xs.context`, zero context) with id = id(Reg(of))+1,
     /// i.e. a context numerically adjacent to an existing one
     ImportRegAdjacent { of: usize },
@@ -55,6 +57,9 @@ pub enum Op {
     ImportRegOlder,
     /// import a frame whose topic contains NUL (must be rejected whole)
     ImportNul,
+    /// import a frame that must be refused (NUL topic) under the id of the stored frame `rank`:
+    /// the refusal must leave the stored frame alone
+    ImportNulOver { rank: usize },
     /// import a *different* frame under the id of the stored frame `rank` (an import stores a
     /// frame as is: the frame it replaces must leave no trace behind)
     ImportOver { rank: usize, topic: String, ctx: Ctx, ttl: String },
@@ -551,6 +556,12 @@ impl Exec {
                 }
                 self.import_new(id, topic, ctx_id, ttl);
             }
+            Op::ImportFuture { topic, ctx, ttl } => {
+                let ctx_id = self.ctx_id(ctx).expect("menu: ctx exists");
+                let newest = self.live.keys().next_back().cloned().map(|i| i.to_u128()).unwrap_or(0).max(scru128::new().to_u128());
+                let id = Scru128Id::from_u128(newest + (3_600_000u128 << 80));
+                self.import_new(id, topic, ctx_id, ttl);
+            }
             Op::ImportDup { rank } => {
                 let id = self.rank_id(*rank).expect("menu: rank exists");
                 let f = self.live[&id].frame.clone();
@@ -591,6 +602,14 @@ impl Exec {
                         self.live.insert(id, MFrame { frame: f, evictable: false, covered: false, imported: true });
                     }
                     Err(e) => self.add(finding("import.err", &["C20", "C01"], format!("import of a well-formed frame over a stored id failed: {}", e))),
+                }
+            }
+            Op::ImportNulOver { rank } => {
+                let id = self.rank_id(*rank).expect("menu: rank exists");
+                let f = Frame::builder("a\0b", ZERO_CONTEXT).id(id).build();
+                match self.store().insert_frame(&f) {
+                    Ok(()) => self.add(finding("nul.accepted", &["C05", "C20"], "import of a frame with a NUL topic was accepted".into())),
+                    Err(_) => self.check_no_trace(&before_dump, "rejected NUL-topic import under a stored id", &["C05", "C20", "C01"]),
                 }
             }
             Op::ImportNul => {
